@@ -33,7 +33,7 @@ def make_graph(root, targets, requested):
         d = pdir(t["proj"], root)
         tid = t["proj"] + "::" + t["name"]
         own_in = ["F:" + pj(d, "in_" + t["name"]) + "|"] if t["kind"] != "a" else []
-        own_out = ["F:" + pj(d, "out_" + t["name"]) + "|.o", "C:" + d + "|echo " + t["name"]] if t["kind"] == "b" else []
+        own_out = ["F:" + pj(d, "out_" + t["name"]) + "|.o", "C:" + d + "|echo " + t["name"]] if (t["kind"] == "b" and not t.get("noout")) else []
         ts.append(dict(t, id=tid, ownIn=own_in, ownOut=own_out))
     return {"root": root, "pkeys": sorted({root, "S"}), "targets": ts, "requested": requested}
 
@@ -65,7 +65,7 @@ def render_graph(g):
             lines.append("      - paths: [in_%s]" % t["name"])
             for r in t["outs"]:
                 lines.append("      - %s.output" % render_ref(r))
-            if t["kind"] == "b":
+            if t["kind"] == "b" and not t.get("noout"):
                 lines.append("    output:")
                 lines.append("      - paths: [out_%s]\n        extensions: [o]" % t["name"])
                 lines.append("      - cmd_stdout: echo %s" % t["name"])
@@ -97,7 +97,7 @@ def gen_resolve_cases(rng, n, exhaustive_small=True):
             w = [6 if (r["q"] in ("", "S", root) and r["n"] in ("a", "b")) else 1 for r in P]
             deps = [dict(x) for x in rng.choices(P, weights=w, k=nd)]
             outs = [dict(x) for x in rng.choices(P, weights=w, k=no)]
-            ts.append({"proj": p, "name": nm, "kind": kind, "deps": deps, "outs": outs})
+            ts.append({"proj": p, "name": nm, "kind": kind, "deps": deps, "outs": outs, "noout": kind == "b" and rng.random() < 0.25})
         cli = []
         for t in ts:
             disp = t["name"] if t["proj"] == "_" else t["proj"] + "::" + t["name"]
